@@ -102,7 +102,7 @@ InitConn(h, k, wc, wt) ==
     tq |-> <<>>, tfin |-> FALSE, trst |-> FALSE, tgt |-> "none", trd |-> FALSE,
     tcl |-> "no",   \* "closed": the target closed completely (the next write to it vanishes), "broken": writes now fail
     crst |-> FALSE, \* the client reset the connection
-    tpz |-> 0, cpz |-> 0,   \* > 0: the target / the client stopped reading at time (value - 1); writes to it block
+    tpz |-> 0, cpz |-> 0,   \* > 0: the target / the client stopped reading at time (value - 1), writes to it block; -1: it did once
 
     finT |-> FALSE, finC |-> FALSE,
     cnt |-> Stat(0, 0, 0, 0) ]
@@ -208,10 +208,10 @@ TargetRst(c) ==
 \* plain io.Copy), and when it comes back the copy goes on where it was.
 TargetPause(c)  == /\ AllowPause /\ st[c].tgt = "up" /\ st[c].tpz = 0 /\ ~st[c].trst /\ st[c].tcl = "no"
                    /\ Step(c, [st[c] EXCEPT !.tpz = now + 1], ob[c], "TPause", 0)
-TargetResume(c) == /\ st[c].tpz > 0 /\ Step(c, [st[c] EXCEPT !.tpz = 0], ob[c], "TResume", 0)
+TargetResume(c) == /\ st[c].tpz > 0 /\ Step(c, [st[c] EXCEPT !.tpz = -1], ob[c], "TResume", 0)   \* -1: has paused once
 ClientPause(c)  == /\ AllowPause /\ st[c].tgt = "up" /\ st[c].cpz = 0 /\ ~st[c].crst /\ st[c].csock = "open"
                    /\ Step(c, [st[c] EXCEPT !.cpz = now + 1], ob[c], "CPause", 0)
-ClientResume(c) == /\ st[c].cpz > 0 /\ Step(c, [st[c] EXCEPT !.cpz = 0], ob[c], "CResume", 0)
+ClientResume(c) == /\ st[c].cpz > 0 /\ Step(c, [st[c] EXCEPT !.cpz = -1], ob[c], "CResume", 0)
 
 TargetClose(c) ==
   /\ AllowTClose /\ st[c].tgt \in {"up", "closed"} /\ st[c].tfin /\ ~st[c].trst /\ st[c].tcl = "no"
@@ -349,11 +349,11 @@ ToTarget(c, s, o, d, a) ==   \* tgtConn.Write of one decrypted chunk
 
 \* io.Copy(tgtConn, clientConn): one chunk.  Data coalesced with the address is still in the reader (leftover)
 C2T_Left(c) ==
-  /\ st[c].pa = "copy" /\ st[c].left # <<>> /\ st[c].tpz = 0
+  /\ st[c].pa = "copy" /\ st[c].left # <<>> /\ st[c].tpz <= 0
   /\ ToTarget(c, [st[c] EXCEPT !.left = <<>>], ob[c], Head(st[c].left), "TRecv")
 C2T_Copy(c) ==
   /\ st[c].pa = "copy" /\ st[c].left = <<>> /\ st[c].cq # <<>> /\ ~st[c].crst
-  /\ st[c].tpz = 0 \/ Head(st[c].cq).k # "data"       \* the write of a data chunk to a target that is not reading blocks
+  /\ st[c].tpz <= 0 \/ Head(st[c].cq).k # "data"       \* the write of a data chunk to a target that is not reading blocks
   /\ LET t == Head(st[c].cq)
          s == [st[c] EXCEPT !.cq = Tail(@), !.cnt.cp = @ + 1] IN
      IF t.k = "data" THEN ToTarget(c, s, ob[c], t.v, "TRecv")
@@ -393,7 +393,7 @@ FinToTarget(c) ==
 (* relay, handler goroutine target -> client  tcp.go:316-328                *)
 (* ------------------------------------------------------------------------ *)
 T2C_Copy(c) ==
-  /\ st[c].pc = "t2c" /\ ~st[c].trst /\ st[c].tq # <<>> /\ ~st[c].crst /\ st[c].cpz = 0
+  /\ st[c].pc = "t2c" /\ ~st[c].trst /\ st[c].tq # <<>> /\ ~st[c].crst /\ st[c].cpz <= 0
   /\ LET d == Head(st[c].tq) IN
      Step(c, [st[c] EXCEPT !.tq = Tail(@), !.cnt.tp = @ + 1, !.cnt.pc = @ + 1],
           [ob[c] EXCEPT !.clog = Append(@, d), !.wire.cr = @ + 1], "CRecv", d)
